@@ -44,10 +44,45 @@ class Impl(object):
         self.store = storing.Store(stamp=0.0)
         self.ids = {}
         self.keep = []
+        self.replaced = []
         for nm, i in (("time", -1), ("realtime", -2), ("datetime", -3)):
             sh = dict.__getitem__(self.store.shares, nm)
             self.ids[id(sh)] = i
             self.keep.append(sh)
+
+    def mkshare(self, i, name):
+        """the Share handed to add/change: a third carry data fields named like path segments of the
+        alphabet (so a path THROUGH the share could be mistaken for a field access), a third a value"""
+        S = self.S
+        if i % 3 == 1:
+            sh = S.Share(name=name, data=dict(b=1, c=2, x=3, value=4, d=5))
+        elif i % 3 == 2:
+            sh = S.Share(name=name, value=7)
+        else:
+            sh = S.Share(name=name)
+        self.ids[id(sh)] = i
+        self.keep.append(sh)
+        return sh
+
+    def walk(self, name):
+        """what sits at the path of name, by plain dict access (no Store method involved)"""
+        cur = self.store.shares
+        try:
+            for lv in name.strip(".").split("."):
+                if not isinstance(cur, dict):
+                    return None
+                cur = dict.__getitem__(cur, lv)
+        except KeyError:
+            return None
+        return cur
+
+    def reachable(self, obj, node=None):
+        node = self.store.shares if node is None else node
+        for k in list(node._keys):
+            v = dict.__getitem__(node, k)
+            if v is obj or (isinstance(v, self.S.Node) and self.reachable(obj, v)):
+                return True
+        return False
 
     def canon(self, r, newid=None):
         S = self.S
@@ -74,24 +109,27 @@ class Impl(object):
         try:
             k = op[0]
             if k == "add":
-                sh = S.Share(name=op[2])
-                self.ids[id(sh)] = op[1]
-                self.keep.append(sh)
+                sh = self.mkshare(op[1], op[2])
                 r = st.add(sh)
             elif k == "addjunk":
                 r = st.add(Junk())
             elif k == "addnode":
                 r = st.addNode(op[1])
             elif k == "change":
-                sh = S.Share(name=op[2])
-                self.ids[id(sh)] = op[1]
-                self.keep.append(sh)
+                sh = self.mkshare(op[1], op[2])
+                old = self.walk(op[2])
                 r = st.change(sh)
+                if isinstance(old, S.Share) and old is not sh:
+                    self.replaced.append(old)
             elif k == "changejunk":
                 r = st.change(Junk())
             elif k == "create":
                 r = st.create(op[2])
-                return self.canon(r, op[1])
+                fresh = isinstance(r, S.Share) and id(r) not in self.ids
+                c = self.canon(r, op[1])
+                if fresh and op[1] % 2 == 0:   # give every other created share data fields named like path segments
+                    r.update(b=1, c=2, value=3)
+                return c
             elif k == "createnode":
                 r = st.createNode(op[1])
             elif k == "fetch":
@@ -124,12 +162,21 @@ class Impl(object):
         return out
 
 
+STALE = {"replaced": 0, "still_reachable": 0, "store_ref_kept": 0}
+
+
 def run_impl(ops):
     im = Impl()
     tr = []
     for op in ops:
         r = im.do(op)
         tr.append((r, im.dump()))
+    for old in im.replaced:      # shares replaced by an accepted change (theorem replaced_share_unreachable)
+        STALE["replaced"] += 1
+        if im.reachable(old):
+            STALE["still_reachable"] += 1
+        if old.store is im.store:
+            STALE["store_ref_kept"] += 1
     return tr
 
 
@@ -390,8 +437,9 @@ def run(ctx):
     ctx.assumptions = [
         "Python str.strip('.')/split('.')/join, dict and the odict key list behave as modelled (lists of code points, "
         "association list in insertion order)",
-        "each add/change is given a fresh Share(name=...) with no data fields; Share.changeStore, console output "
-        "and the Registrar bookkeeping of Store are not modelled",
+        "each add/change is given a fresh Share object (a third of them carrying data fields named like path segments, "
+        "a third a value; every other created share is given fields afterwards): the model ignores share data, as the "
+        "fixed store does; Share.changeStore, console output and the Registrar bookkeeping of Store are not modelled",
         "pre-seeded store content (.meta node, .time/.realtime/.datetime shares) is the model's initial tree",
     ]
     ctx.coq_build("C18/Props.v")
@@ -427,6 +475,12 @@ def run(ctx):
     for i in bad[:5]:
         ctx.tie_broken("correspondence", "C18 model vs Store", "ops=%r impl_trace=%r" % (metas[i], run_impl(metas[i])))
     ctx.extra["mismatches"] = len(bad)
+    ctx.extra["replaced_shares"] = dict(STALE, note="shares replaced by an accepted change: none may stay reachable in the "
+                                        "tree; store_ref_kept counts replaced shares whose .store still points at the "
+                                        "store (observation, not part of the property)")
+    if STALE["still_reachable"]:
+        ctx.tie_broken("correspondence", "C18 replaced share still reachable",
+                       "%d of %d shares replaced by change() are still in the tree" % (STALE["still_reachable"], STALE["replaced"]))
     ctx.exhaustive = False
 
     def search():
